@@ -77,6 +77,13 @@ def document(version="3.0.3"):
     p = "/a/{first-one}/b/{second}/{third}/{d}"
     paths[p] = {"put": {"operationId": "op_path", "tags": ["t"], "parameters": params, "responses": ok}}
     ops["op_path"] = ("put", p, params, None)
+    # 3b. path parameters whose names need pythonisation (keyword, camelCase, kebab-case) and also occur inside fixed
+    #     segments and inside another placeholder: only the `{name}` placeholders may be rewritten
+    params = [_param("type", "path", "str", True), _param("formatId", "path", "str", True),
+              _param("user-id", "path", "str", True), _param("typeId", "path", "int", True)]
+    p = "/types/{type}/formatIds/{formatId}/user-id-x/{user-id}/type/{typeId}"
+    paths[p] = {"get": {"operationId": "op_path_names", "tags": ["t"], "parameters": params, "responses": ok}}
+    ops["op_path_names"] = ("get", p, params, None)
     # 4. path-item level parameters overridden by operation level ones
     pi = [_param("v", "query", "int", False), _param("only-item", "header", "str", False), _param("v", "header", "str", False)]
     op = [_param("v", "query", "str", True)]
